@@ -625,6 +625,17 @@ def run_walk(ctx, spec):
     seq = to_int(e)
     ctx.distinct('walk', seq)
     mon_walk(mon, ns, seq, n, e, {'n': n, 'kind': 'oscillating', 'seq': seq})
+  for cycles in (499, 500, 501, 500):        # the J >= 500 boundary
+    e = []
+    for c in range(cycles - 1):
+      h = rng.choice([1, 2, 3])
+      seg = [1] * h + [0] * h
+      e += seg if rng.chance(1, 2) else [1 - b for b in seg]
+    e += [1, 1, 0]     # last, unfinished cycle: J = cycles
+    J, _, _ = nist.random_excursions(e)
+    ctx.count('boundary_walks_J%d' % J)
+    mon_walk(mon, ns, to_int(e), len(e), e, {'n': len(e), 'kind':
+                                             'J=%d' % J, 'seq': to_int(e)})
   for n in (257, 1001, 10007, 600, 1200):   # alternating strings
     e = [(j + 1) % 2 for j in range(n)]
     mon_walk(mon, ns, to_int(e), n, e, {'n': n, 'kind': 'alternating'})
@@ -824,6 +835,7 @@ def finalize(agg, tier):
       'LinearComplexity', 'Serial', 'ApproximateEntropy', 'CumulativeSums',
       'RandomExcursions', 'RandomExcursionsVariant')]
   need += ['range_checks', 'insufficient_boundary_checks', 'table_entries',
-           'walks_with_500_cycles', 'metamorphic:complement',
+           'walks_with_500_cycles', 'boundary_walks_J500',
+           'boundary_walks_J499', 'metamorphic:complement',
            'metamorphic:reverse', 'metamorphic:rotate']
   return [], ['reach counter %s is zero' % k for k in need if not c.get(k)]
